@@ -215,7 +215,13 @@ def coq_op(op, moltype):
 def coq_case(c, flags):
     fl = "[" + ";".join(cbool(f) for f in flags) + "]"
     rows = "[" + ";".join(f"({i},{zstr(s)})" for i, s in c["rows"]) + "]"
-    ops = "[" + ";".join(coq_op(o, c["moltype"]) for o in c["ops"]) + "]"
+    # the moltype constants an operation is given are those of the alignment it is applied to
+    mt, rendered = c["moltype"], []
+    for o in c["ops"]:
+        rendered.append(coq_op(o, mt))
+        if not c.get("indep") and mt in ("dna", "rna") and o["op"] in ("to_rna", "to_dna"):
+            mt = "rna" if o["op"] == "to_rna" else "dna"
+    ops = "[" + ";".join(rendered) + "]"
     return f"({fl}, {KIND_CODE[c['moltype']]}, {cbool(c['arr'])}, {cbool(c.get('indep', False))}, {rows}, {ops})"
 
 
@@ -760,6 +766,13 @@ def run(tier: str, seed: int) -> int:
     import os
     if os.environ.get("C03_DEBUG"):
         open("/tmp/c03_disagreements.json", "w").write(json.dumps(disagreements[:200], indent=1, default=str))
+    if pure and rep.violations:
+        # core.conclude reports model-vs-implementation differences only when nothing else was reported
+        d = dict(pure[0])
+        d["broken"] = ("correspondence Model.AlignedRun.run_case vs cogent3.core.alignment: model and implementation differ on this "
+                       "input while the specification oracle does not flag it")
+        d["n_disagreements"] = len(pure)
+        rep.violation("correspondence:" + str(d.get("key", "")), d, no_input=True)
     core.conclude(rep, pr, f"{len(cases)} cases / {stats['evals']} operation evaluations against the string oracle", pure[:3],
                   "Model.AlignedRun.run_case vs cogent3.core.alignment", tier, PROP)
     return rep.finish("proof")
